@@ -461,7 +461,20 @@ func osfsEngine(c *Ctx) {
 		{{"real", 'd', ""}, {"real/sub", 'd', ""}, {"real/data", 'f', ""}, {"data", 'f', ""}, {"alias", 'L', "real/sub"}, {"real/sub/l", 'L', "../data"}},
 		{{"d", 'd', ""}, {"d/sub", 'd', ""}, {"d/sub/l2", 'L', "../../secret"}, {"secret", 'f', ""}, {"l1", 'L', "/d/sub"}},
 	}
-	paths := []string{".", "a", "b", "d", "d/a", "l1", "l2", "l1/a", "l2/a", "d/l1", "d/l1/a", "sub", "sub/a", "f", "f/x", "nope", "l1/..", "d/sub/a", "l1/l2", "deep/er", "secret"}
+	// long acyclic chains: c0 -> c1 -> ... -> c44 -> (a file inside | the secret outside, by absolute path | over-dotted)
+	for _, tail := range []string{"a", "@OUT@/secret", "../../../secret"} {
+		var chain []osNode
+		chain = append(chain, osNode{"a", 'f', ""}, osNode{"secret", 'f', ""})
+		for i := 0; i < 45; i++ {
+			tg := fmt.Sprintf("c%d", i+1)
+			if i == 44 {
+				tg = tail
+			}
+			chain = append(chain, osNode{fmt.Sprintf("c%d", i), 'L', tg})
+		}
+		corpus = append(corpus, chain)
+	}
+	paths := []string{"c0", "c10", ".", "a", "b", "d", "d/a", "l1", "l2", "l1/a", "l2/a", "d/l1", "d/l1/a", "sub", "sub/a", "f", "f/x", "nope", "l1/..", "d/sub/a", "l1/l2", "deep/er", "secret"}
 	ops := []string{"stat", "lstat", "open", "mkdir", "chmod", "settimes", "readdir", "readlink"}
 	for k := 0; k < nTrees+len(corpus); k++ {
 		var ns []osNode
@@ -508,7 +521,7 @@ func osfsEngine(c *Ctx) {
 		}
 		if k < len(corpus) {
 			for _, o := range ops {
-				for _, p := range []string{"l1", "l2", "sub", "d/l1"} {
+				for _, p := range []string{"l1", "l2", "sub", "d/l1", "c0", "c7"} {
 					osfsExec(c, fmt.Sprintf("osfs %s op %s %s", tt, o, hx(p)))
 				}
 			}
